@@ -115,7 +115,8 @@ func discharge(o *Obligation, dir string, timeoutS int, idx int) {
 		dischargeParts(o, dir, timeoutS, idx)
 		return
 	}
-	q := o.query(true, o.isCover)
+	// vacuity covers keep the background axioms: an inconsistency involving them must show up as a quick "unsat"
+	q := o.query(true, false)
 	o.QuerySize = len(q)
 	tag := fmt.Sprintf("o%04d", idx)
 	want := "unsat"
@@ -123,8 +124,8 @@ func discharge(o *Obligation, dir string, timeoutS int, idx int) {
 	if o.isCover {
 		want, bad = "sat", "unsat"
 	}
-	if o.isCover && timeoutS > 3 {
-		timeoutS = 3 // vacuity covers: a quick look only; "unknown" is recorded as inconclusive
+	if o.isCover && timeoutS > 2 {
+		timeoutS = 2 // vacuity covers: a quick look only; "unknown" is recorded as inconclusive
 	}
 	if o.exceptObl != nil && timeoutS > 3 {
 		timeoutS = 3 // a recorded known finding is expected to fail here; the decision is made on its except-query
@@ -142,6 +143,12 @@ func discharge(o *Obligation, dir string, timeoutS int, idx int) {
 	if res == want || res == bad || o.isCover || o.exceptObl != nil {
 		if res == "sat" {
 			o.Model = text
+		}
+		if o.isCover && res == "unsat" && o.coverPre != nil {
+			discharge(o.coverPre, dir, timeoutS, idx+50000)
+			if o.coverPre.Result == "unsat" {
+				o.Result = "dead-path"
+			}
 		}
 		return
 	}
